@@ -265,13 +265,17 @@ def effEnd (endSeq : Option Nat) (w : Nat) : Nat :=
   | some e => Nat.min e w
   | none => w
 
-/-- `handle_partition_read_locally` (the batch limit `end - next + 1` never stops the loop early:
+/-- the loop goes on while `seq ≤ effective_end` and `seq < watermark` -/
+def inPartRange (endSeq : Option Nat) (w : Nat) (e : SEv) : Bool :=
+  decide (e.ev.seq ≤ effEnd endSeq w) && decide (e.ev.seq < w)
+
+/-- `handle_partition_read_locally` (the batch limit `(end - next).clamp(1, 50)` never stops the loop early:
 batches only cut the event list) -/
 def scanPartition (st : ServerState) (pid start : Nat) (endSeq : Option Nat) (count : Nat) : Response :=
   let w := st.watermark pid
   if start > w then .events false []
   else
-    let out := ((partitionFrom st pid start).takeWhile (fun e => decide (e.ev.seq ≤ effEnd endSeq w))).take count
+    let out := ((partitionFrom st pid start).takeWhile (fun e => inPartRange endSeq w e)).take count
     let lastRead := match out.getLast? with | some e => e.ev.seq + 1 | none => start
     .events (decide (1 ≤ w ∧ lastRead ≤ w - 1)) out
 
@@ -321,10 +325,10 @@ def reachedEnd (endV : Option Nat) (acc : List SEv) : Bool :=
 def scanEvents (pid count w : Nat) (endV : Option Nat) : List SEv → List SEv → Bool → List SEv × Bool × Ctl
   | [], acc, hm => (acc, hm, .cont)
   | e :: es, acc, hm =>
-    -- the stream index is per bucket: events of another partition are skipped
-    if e.ev.pid != pid then scanEvents pid count w endV es acc hm
+    -- the stream index is per bucket: an event of another partition ends the scan
+    if e.ev.pid != pid then (acc, hm, .breakIter)
     else if acc.length ≥ count then (acc, true, .breakIter)
-    else if e.ev.seq > w then (acc, hm, .breakIter)
+    else if e.ev.seq ≥ w then (acc, hm, .breakIter)
     else if beyondEnd endV e then (acc, true, .cont)
     else scanEvents pid count w endV es (acc ++ [e]) hm
 
